@@ -2,7 +2,8 @@
 grammar's printer, record generators and the three-step run protocol.
 
 python case: ( mode pattern rec mdc thread ast envsel )
-  mode    1 construct + encode, 2 construct only
+  mode    1 construct + encode, 2 construct only, 4 = as 1 but the harness first encodes the
+          pid/thread formatters, then forks and encodes in the child (the model sees mode 1)
   pattern code points
   rec     ( level msg target module? file? line? )      options are () or (v)
   mdc     ( (key value).. )      thread () | (name)
@@ -176,10 +177,11 @@ BARE_REC = [1, cp("msg"), cp("t"), [], [], []]
 
 # ---------------------------------------------------------------- run protocol
 
-def prepare(ctx, binname):
+def prepare(ctx, binname, release_in_quick=False):
     vc = ctx["vc"]
     ctx["vh"] = vc.build_harness(binname)
-    ctx["vh_release"] = vc.build_harness(binname, release=True) if ctx["tier"] == "thorough" else None
+    ctx["vh_release"] = (vc.build_harness(binname, release=True)
+                         if ctx["tier"] == "thorough" or release_in_quick else None)
 
 
 def _nonascii(cases):
@@ -278,7 +280,7 @@ def model_lines(ctx, cases, lines, impl_lines, keep_junk=False):
         ast = c[5]
         if ast and not keep_junk:
             ast = [ast[0]]
-        out.append(vc.show([c[0], c[1], c[2], c[3], c[4], cls, rt, tt, ast]))
+        out.append(vc.show([1 if c[0] == 4 else c[0], c[1], c[2], c[3], c[4], cls, rt, tt, ast]))
     return out
 
 
